@@ -173,6 +173,10 @@ def _child(script, argv, env, cwd, stdin_fd, out_fd, err_fd, logfd, world,
             _c.SINK.reset()
             _c.bind(contracts, sh)
         import runpy
+        if plan and plan.get('recursion_limit'):
+            # scaled-down stand-in for "deeper than the interpreter's
+            # recursion limit" (trees of ~1000 levels cost O(depth^2) path walks)
+            sys.setrecursionlimit(int(plan['recursion_limit']))
         try:
             runpy.run_path(script, run_name='__main__')
             code = 0
